@@ -100,13 +100,16 @@ macro_rules! with_btree_storage {
     ($wal_enabled:expr, $storage:expr, $dirty_tracker:expr, $table_id:expr, $root_page:expr, $btree_ops:expr) => {{
         use $crate::btree::BTree;
         use $crate::storage::WalStoragePerTable;
+        // evaluates to the tree's root page after the operations (a root split moves it)
         if $wal_enabled {
             let mut wal_storage = WalStoragePerTable::new($storage, $dirty_tracker, $table_id);
             let mut btree_mut = BTree::new(&mut wal_storage, $root_page)?;
             $btree_ops(&mut btree_mut)?;
+            btree_mut.root_page()
         } else {
             let mut btree_mut = BTree::new($storage, $root_page)?;
             $btree_ops(&mut btree_mut)?;
+            btree_mut.root_page()
         }
     }};
 }
